@@ -26,7 +26,8 @@ CLAIMS = {
         text="Proof of the per-call facts the reproducibility argument rests on: every component draws only from the generator it "
              "is passed (draw counts; implicit clause: no module-level state written, no generator created and drawn from, no "
              "dependence on set iteration order / identity), composites and GridWorld thread exactly their generator "
-             "(chain, delegation and functional_* wiring contracts, set_seed), the debug flag only gates raises. Native replay of "
+             "(chain, delegation and functional_* wiring contracts, set_seed), the sampling helpers of rng.py draw once from the given "
+             "generator and return members / a permutation of their population, the debug flag only gates raises. Native replay of "
              "hash-order dependence re-runs the real function under different PYTHONHASHSEED values; every native contract run "
              "also snapshots numpy.random / random / the library generator. The induction over histories and numpy's "
              "'a Generator is a function of its seed' are stated assumptions.",
@@ -35,8 +36,9 @@ CLAIMS = {
         text="Proof: purity (deep structural equality of state / next state / observation input before and after) and no-draw "
              "for every reward, termination, observation and visibility function; transition_with_copy copies first, runs the "
              "transition on the copy only and returns it; from_visibility builds a fresh observation grid; equality is an "
-             "equivalence on (type, status, colour) and equal objects hash alike; implicit clause: no global state written "
-             "(history independence). Assumed: pickle round trip in fast_copy yields a structurally equal disjoint copy; "
+             "equivalence on (type, status, colour) and equal objects / agents / grids of any shape hash alike; Grid.__eq__ and "
+             "Agent.__eq__ exact; hashing a state before a copied in-place step does not change what the equal next states hash to; "
+             "implicit clause: no global state written (history independence). Assumed: pickle round trip in fast_copy yields a structurally equal disjoint copy; "
              "lru_cache transparency for dijkstra / rays (callers proved not to write to the cached results' cells is covered "
              "by the write barrier of the loop rules).",
         design='5/C03'),
@@ -45,8 +47,10 @@ CLAIMS = {
              "memory, dynamic_obstacles (well-formed: requested shape, unbroken wall boundary, agent inside on a free cell that is "
              "not exit/obstacle/telepod, empty-handed; inventories as advertised; ValueError and only ValueError for parameters "
              "that cannot be honoured), with the design.py drawing helpers verified against cell-exact contracts (loop "
-             "invariants). Obstacle counts are evaluated natively only. rooms, memory_rooms and crossing (numpy.linspace, "
-             "shuffles) are evaluated natively only on random parameters: bounded stand-ins, not proof.",
+             "invariants). rooms is proved for the fixed layouts (1,1), (2,2), (1,3) with symbolic shape and every outcome (numpy.linspace "
+             "modelled exactly for at most 6 samples and compared with numpy by the setup command). Obstacle counts are evaluated "
+             "natively only. rooms with other layouts, memory_rooms and crossing are evaluated natively only on random parameters: "
+             "bounded stand-ins, not proof.",
         design='5/C13'),
     'C04': dict(
         text="Proof: contracts on InnerEnv.reset/step/state/observation (executed on a GridWorld whose functional_* methods are "
